@@ -97,7 +97,8 @@ PROPS = {
                        'yield actions) exhaustively up to a nesting and length bound; per-sentence state is reset '
                        'after every yield and tokens are numbered from 1; every attach sets the parent pointer; '
                        'gf_split / gf_separator / replace_parens / continuous / quiet have the same code in every '
-                       'format; option keys are literal, tested before use and forwarded; every reader gunzips. '
+                       'format; option keys are literal, tested before use and forwarded; every reader gunzips; the TIGER root is '
+                       'searched among all nodes. '
                        'Does NOT decide: export field splitting, TIGER id-ref resolution, character decoding.',
     },
     'C02': {
@@ -123,7 +124,8 @@ PROPS = {
                        'site uses (4 readers x 5 writers total), both output branches frame every file with '
                        '<fmt>_begin/_end on every path, encodings reach every open and gzip is undone byte-exactly, '
                        'trees from field-poor formats can be written (None defaults), own reader/writer agree on XML '
-                       'vocabulary and on the discobracket index convention, options are forwarded. Does NOT decide: '
+                       'vocabulary and on the discobracket index convention, options are forwarded, reader state is reset per '
+                       'sentence, directory mode converts every member, output is opened for writing. Does NOT decide: '
                        'losslessness of a round trip.',
     },
     'C04': {
@@ -135,7 +137,8 @@ PROPS = {
                        'a detach cannot leave a childless constituent, every return hands back the root (typestate '
                        'dataflow with root-preservation summaries), only documented node fields are written and only '
                        'documented nodes move, parents are read in the moving iteration, stored child order is never '
-                       'observed. Does NOT decide: acyclicity in general, label multiset equality.',
+                       'observed; the boyd_split flag protocol (one copy node per block, head block only through the head child). '
+                       'Does NOT decide: acyclicity in general, label multiset equality.',
     },
     'C05': {
         'rules': ['R-LINK', 'R-FLAGS', 'R-DISCONT', 'R-FRAME', 'R-ORDERED', 'R-KEEP', 'R-HEADS', 'DECOR'],
